@@ -70,14 +70,22 @@ func (p *KeycloakOIDCProvider) EnrichSession(ctx context.Context, s *sessions.Se
 
 // RefreshSession adds role extraction logic to the refresh flow
 func (p *KeycloakOIDCProvider) RefreshSession(ctx context.Context, s *sessions.SessionState) (bool, error) {
-	refreshed, err := p.OIDCProvider.RefreshSession(ctx, s)
+	// Work on a copy: a refresh that fails half-way (the roles of the new access
+	// token cannot be read) must leave the caller's session untouched
+	updated := *s
+	updated.Groups = append([]string(nil), s.Groups...)
+	refreshed, err := p.OIDCProvider.RefreshSession(ctx, &updated)
 
 	// Refresh could have failed or there was not session to refresh (with no error raised)
 	if err != nil || !refreshed {
 		return refreshed, err
 	}
 
-	return true, p.extractRoles(ctx, s)
+	if err := p.extractRoles(ctx, &updated); err != nil {
+		return false, err
+	}
+	*s = updated
+	return true, nil
 }
 
 func (p *KeycloakOIDCProvider) extractRoles(ctx context.Context, s *sessions.SessionState) error {
